@@ -102,8 +102,8 @@ func settle(maxWait time.Duration, socks, gors int, ips ...string) (int, int, []
 
 type behaviour struct {
 	name     string
-	path     string // udp | tcp | broadcast
-	expect   string // success | error
+	path     string  // udp | tcp | broadcast
+	expect   string  // success | error
 	minT     float64 // the call must not return before minT*T
 	needWait bool    // the call must return no later than T + slack and (for error) nothing may end it earlier than minT
 }
@@ -120,7 +120,7 @@ type c09Env struct {
 	bcast  *farm.Endpoint
 	udp    *farm.Endpoint
 	tcp    *farm.Endpoint
-	closed int // a port nobody listens on
+	closed int      // a port nobody listens on
 	plan   sync.Map // serial -> behaviour name
 	floodS time.Duration
 	timing sync.Map // serial -> *c09Timing (measured by the farm)
